@@ -121,10 +121,8 @@ def _moment_np(P, kw):
     mu = a.mean(axis=ax, keepdims=True)
     n = a.size if ax is None else np.prod([a.shape[i] for i in (ax if isinstance(ax, tuple) else (ax,))])
     order = kw["order"]
-    if order == 0:
-        return np.ones_like(a.sum(axis=ax, keepdims=kw.get("keepdims", False)))
-    if order == 1:
-        return np.zeros_like(a.sum(axis=ax, keepdims=kw.get("keepdims", False)))
+    if order in (0, 1):
+        return None
     return ((a - mu) ** order).sum(axis=ax, keepdims=kw.get("keepdims", False)) / (n - kw.get("ddof", 0))
 
 
@@ -215,8 +213,8 @@ def _move(da, A, kw, extra):
     if "ddof" in kw:
         call["ddof"] = kw["ddof"]
     dt = kw.get("dtype", "f8" if x.dtype.kind != "f" else str(x.dtype))
-    key = ax if not kw.get("neg_depth_key") else ax  # depth keys are always normalised ints in xarray
-    return x.map_overlap(f, depth={key: (w - 1, 0)}, dtype=dt, **call)
+    # exactly xarray's dask rolling call (dask_rolling_wrapper): depth keyed by the normalised axis
+    return x.map_overlap(f, depth={ax: (w - 1, 0)}, dtype=dt, **call)
 
 
 def _move_np(P, kw):
@@ -235,19 +233,12 @@ for _f in ("move_sum", "move_mean", "move_min", "move_max", "move_std", "move_va
 reg("push", lambda da, A, kw, extra: da.push(A[0], kw["n"], kw["axis"]),
     lambda P, kw: bn.push(P[0], n=kw["n"], axis=kw["axis"]))
 
-_OVL = {
-    "smooth": lambda b, axis=0: (b + np.roll(b, 1, axis) + np.roll(b, -1, axis)),
-    "diffpad": lambda b, axis=0: np.gradient(b, axis=axis) if b.shape[axis] > 1 else b * 0.0,
-    "cummax": lambda b, axis=0: np.maximum.accumulate(b, axis=axis),
-}
-
-
 def _smooth(b, axis=0):
-    return _OVL["smooth"](b, axis)
+    return b + np.roll(b, 1, axis) + np.roll(b, -1, axis)
 
 
 def _cummax(b, axis=0):
-    return _OVL["cummax"](b, axis)
+    return np.maximum.accumulate(b, axis=axis)
 
 
 def _map_overlap(da, A, kw, extra):
@@ -491,11 +482,14 @@ def _store(da, A, kw, extra):
         r = da.store(list(srcs) if len(srcs) > 1 else srcs[0], targets if len(srcs) > 1 else targets[0], compute=False, **call)
         outs = _stored(da, r) if kw.get("return_stored") else []
         if not outs:
-            r.compute(scheduler="sync")
+            import dask
+
+            rs = r if isinstance(r, (tuple, list)) else (r,)
+            dask.compute(*rs, scheduler="sync")
             first[0] = [t.copy() for t in targets]
             for t in targets:
                 t[...] = -777
-            r.compute(scheduler="threads")
+            dask.compute(*rs, scheduler="threads")
 
     def post(pristine):
         bad = []
@@ -503,8 +497,6 @@ def _store(da, A, kw, extra):
             want = np.full(t.shape, -777, dtype=t.dtype)
             want[regions if regions else ...] = pristine[i]
             for label, got in (("second store", t),) + ((("first store", first[0][i]),) if first[0] is not None else ()):
-                if first[0] is None and label == "second store" and False:
-                    continue
                 if graphs_fp(got) != graphs_fp(want):
                     bad.append(("store-target-wrong", f"target {i} after the {label}: {np.asarray(got).ravel()[:8].tolist()} expected {want.ravel()[:8].tolist()}"))
         return bad
